@@ -79,12 +79,30 @@ func libCall(fn string, in []byte, text string, flags uint32) (outcome string) {
 			return "true"
 		}
 		return "false"
-	case "VerifyTxScript.witness":
-		// in = <number of witness items> { <1 byte length> <item> } <pkScript>
+	case "VerifyTxScript.witness", "VerifyTxScript.witness.shape":
+		// in = [shape only: <inputs> <outputs> <index of the spending input>]
+		//      <number of witness items> { <1 byte length> <item> } <pkScript>
+		nin, nout, idx := 1, 1, 0
+		if fn == "VerifyTxScript.witness.shape" {
+			if len(in) < 3 || in[0] == 0 || in[2] >= in[0] {
+				return "bad-case"
+			}
+			nin, nout, idx = int(in[0]), int(in[1]), int(in[2])
+			in = in[3:]
+		}
 		if len(in) < 1 {
 			return "bad-case"
 		}
-		t := &reftx.Tx{Version: 2, In: []reftx.In{{Prev: [32]byte{0x11, 0x22}, Vout: 0, Sequence: 0xffffffff}}, Out: []reftx.Out{{Value: 1000, Script: []byte{0x51}}}}
+		t := &reftx.Tx{Version: 2}
+		for k := 0; k < nin; k++ {
+			t.In = append(t.In, reftx.In{Prev: [32]byte{0x11, 0x22, byte(k)}, Vout: uint32(k), Sequence: 0xffffffff})
+		}
+		for k := 0; k < nout; k++ {
+			t.Out = append(t.Out, reftx.Out{Value: 1000, Script: []byte{0x51}})
+		}
+		if nin != 1 || nout != 1 {
+			return verifyShaped(t, idx, in, flags)
+		}
 		p := 1
 		for k := 0; k < int(in[0]); k++ {
 			if p >= len(in) || p+1+int(in[p]) > len(in) {
@@ -415,6 +433,25 @@ func (g *libGen) witnessStacks() {
 			g.add("VerifyTxScript.witness", "empty-items", consensusFlags, false, enc(pk, items...))
 		}
 	}
+	// signature items with every hash-type byte that selects a digest algorithm branch, on
+	// every position of spending transactions with 1-3 inputs and 0-2 outputs (SIGHASH_SINGLE
+	// with the input index below / equal to / above the number of outputs): the digest code
+	// runs on attacker-chosen positions before any signature is verified
+	der := append(append([]byte{0x30, 0x44, 0x02, 0x20}, fill(32, 0x11)...), append([]byte{0x02, 0x20}, fill(32, 0x22)...)...)
+	for nin := 1; nin <= 3; nin++ {
+		for nout := 0; nout <= 2; nout++ {
+			for idx := 0; idx < nin; idx++ {
+				shape := hex.EncodeToString([]byte{byte(nin), byte(nout), byte(idx)})
+				for _, ht := range []byte{0x00, 0x01, 0x02, 0x03, 0x04, 0x80, 0x81, 0x82, 0x83, 0x84, 0xff} {
+					sig65 := append(fill(64, 0x33), ht)
+					g.add("VerifyTxScript.witness.shape", "hashtype-positions", consensusFlags, false, shape+enc(p2tr, sig65))
+					g.add("VerifyTxScript.witness.shape", "hashtype-positions", consensusFlags, false, shape+enc(p2tr, sig65, []byte{0x50, 0x01}))
+					g.add("VerifyTxScript.witness.shape", "hashtype-positions", consensusFlags, false, shape+enc(p2wpkh, append(append([]byte{}, der...), ht), fill(33, 0x02)))
+				}
+				g.add("VerifyTxScript.witness.shape", "hashtype-positions", consensusFlags, false, shape+enc(p2tr, fill(64, 0x33)))
+			}
+		}
+	}
 }
 
 func (g *libGen) addresses() {
@@ -481,4 +518,37 @@ func libCases(w *world, next func() int, thorough bool) []*Case {
 	g.witnessStacks()
 	g.scripts(thorough)
 	return g.cases
+}
+
+// verifyShaped: the witness case of "VerifyTxScript.witness" on a spending transaction with
+// several inputs / outputs, the witness and the judged script on input idx; the other inputs
+// spend anyone-can-spend outputs.
+func verifyShaped(t *reftx.Tx, idx int, in []byte, flags uint32) string {
+	p := 1
+	for k := 0; k < int(in[0]); k++ {
+		if p >= len(in) || p+1+int(in[p]) > len(in) {
+			return "bad-case"
+		}
+		t.In[idx].Witness = append(t.In[idx].Witness, in[p+1:p+1+int(in[p])])
+		p += 1 + int(in[p])
+	}
+	pk := in[p:]
+	raw := t.Serialize(true)
+	tx, n := btc.NewTx(raw)
+	if tx == nil || n != len(raw) {
+		return "tx-refused"
+	}
+	tx.SetHash(raw)
+	tx.AllocVerVars()
+	for k := range t.In {
+		if k == idx {
+			tx.Spent_outputs = append(tx.Spent_outputs, &btc.TxOut{Value: 1000, Pk_script: pk})
+		} else {
+			tx.Spent_outputs = append(tx.Spent_outputs, &btc.TxOut{Value: 1000, Pk_script: []byte{0x51}})
+		}
+	}
+	if script.VerifyTxScript(pk, &script.SigChecker{Amount: 1000, Idx: idx, Tx: tx}, flags) {
+		return "true"
+	}
+	return "false"
 }
